@@ -404,14 +404,20 @@ def run(run, binfo):
         deep.append([0, [1, [0, leafx(1)], nots(d, leafx(0))]])
         deep.append([0, [0, nots(d // 2, [2, [0, [0, nots(d - d // 2, leafx(0))]]])]])
         x = leafx(0)
-        for _ in range(d):
+        for _ in range(min(d, 90)):             # (CPython 3.12 caps the C-level recursion of the harness's own encoder)
             x = [0, [2, [0, [0, x]]]]           # not (not (not ... ))
         deep.append([0, [0, x]])
     for d in (6, 10, 14, 20, 31, 33, 36) + ((50, 80) if tier == 'thorough' else ()):
         deep.append(tower(d))
-    for o, ans in zip(deep, run_batch([[5, o, 2] for o in deep])):
-        toks, dec = ans[0], [bool(b) for b in ans[1]]
-        check_spec_case(run, o, 2, [render(toks, rng, names, plain=True), render(toks, rng, names)], dec, 'deep')
+    import sys
+    limit = sys.getrecursionlimit()
+    sys.setrecursionlimit(max(limit, 20000))      # the harness's own S-expression encoder recurses on these
+    try:
+        for o, ans in zip(deep, run_batch([[5, o, 2] for o in deep])):
+            toks, dec = ans[0], [bool(b) for b in ans[1]]
+            check_spec_case(run, o, 2, [render(toks, rng, names, plain=True), render(toks, rng, names)], dec, 'deep')
+    finally:
+        sys.setrecursionlimit(limit)
     run.count('deep_expressions', len(deep))
 
     # ---- (d) list-of-lists shapes
@@ -484,7 +490,7 @@ def run(run, binfo):
                 'sentence of the documented grammar up to %d nodes and %d random expressions up '
                 'to ~60 tokens in 3 random renderings, each under all 2^k role assignments '
                 '(extracted spec den_o vs Enforcer.enforce, by name and as a check object on an enforcer without rules); '
-                'runs of up to 58 nots / 36-level and-or towers (thorough: 150 / 80); every list-of-lists shape up to '
+                'runs of up to 58 nots / 36-level and-or towers (thorough: 150 nots, 90 parenthesised nots, 80-level towers); every list-of-lists shape up to '
                 'length %d. non-trivial = decision not constant over the assignments'
                 % (maxlen, ALPHA, maxnodes, nrand, 3 if tier == 'thorough' else 2))
     run.exhaustive = False
